@@ -193,9 +193,11 @@ def callers_data(chk: Check) -> None:
     chk.need(len(pp) == 1, 'on_create no longer calls pre_process exactly once')
     arg = pp[0].args[0]
     src = arg
+    srcs = [arg]
     if isinstance(arg, ast.Name):
-        vals = [n.value for n in ast.walk(oc.node) if isinstance(n, ast.Assign) and norm(n.targets[0]) == arg.id]
-        src = vals[0] if len(vals) == 1 else None
+        # every value the local can hold (one assignment, a conditional expression, or one assignment per branch of an if/else)
+        srcs = [n.value for n in ast.walk(oc.node) if isinstance(n, ast.Assign) and norm(n.targets[0]) == arg.id]
+        src = ast.Tuple(elts=list(srcs), ctx=ast.Load()) if srcs else None
     def is_recursive_rebuild(g) -> bool:
         """``g(value)``: a new dict at every nesting level, built by calling itself on the sub-values."""
         if g is None or isinstance(g.node, ast.Lambda):
@@ -220,6 +222,10 @@ def callers_data(chk: Check) -> None:
         tests = []
         for n in ast.walk(src):
             if isinstance(n, ast.IfExp):
+                tests.extend(x for x in ast.walk(n.test))
+        # (references inside the test of an enclosing ``if`` / conditional expression only look at the raw inputs)
+        for n in ast.walk(oc.node):
+            if isinstance(n, ast.If) and any(any(v_ is x for x in ast.walk(n)) for v_ in srcs):
                 tests.extend(x for x in ast.walk(n.test))
         ok = bool(rebuilt) and all(inside(r) or any(r is t for t in tests) for r in refs)
     chk.ob('PROV-raw-inputs-untouched', oc, ok, 'the mapping handed to pre_process (which fills in defaults IN PLACE) is a recursive rebuild of the raw inputs, never the raw '
@@ -287,20 +293,28 @@ def read_only(chk: Check) -> None:
     chk.ob('OWN-frozen', pp, ok, 'pre_process returns a frozen mapping', kind='returns-frozen')
     cfg = cfg_of(pp)
     ff = chk.ctx.facts.analyse(pp)
-    # every store into the mapping, with the facts under which it happens (a conditional expression counts as its two branches)
-    virt = []
-    for n in cfg.nodes:
-        if n.kind == 'stmt' and isinstance(n.ast, ast.Assign) and isinstance(n.ast.targets[0], ast.Subscript) and norm(n.ast.targets[0].value) == pp.params[1]:
-            v_ = n.ast.value
-            if isinstance(v_, ast.IfExp):
-                virt.append((ff.at(n) | frozenset(ff.cond_atoms(v_.test, True)), v_.body))
-                virt.append((ff.at(n) | frozenset(ff.cond_atoms(v_.test, False)), v_.orelse))
-            else:
-                virt.append((ff.at(n), v_))
-    is_ns = lambda fs: any(a[0] == 'isinst' and 'PortNamespace' in a[2] for a in fs)
-    rec = [(fs, v_) for fs, v_ in virt if isinstance(v_, ast.Call) and last_name(v_) == 'pre_process']
-    plain = [(fs, v_) for fs, v_ in virt if not (isinstance(v_, ast.Call) and last_name(v_) == 'pre_process')]
-    ok = len(rec) == 1 and all(is_ns(fs) for fs, _ in rec) and all(not is_ns(fs) for fs, _ in plain)
+    # decision table over "the port is a namespace": what is stored under the name on each path (locals re-bound on the way are followed)
+    from ..decisions import leaf as _lf, paths_under as _pu2, value_on_path as _vop2
+    it_ = [m for m in cfg.nodes if m.kind == 'iter']
+    ok = bool(it_)
+    n_st = 0
+    if ok:
+        tgt_ = [norm(x) for x in it_[0].ast.target.elts] if isinstance(it_[0].ast.target, ast.Tuple) else ['name', 'port']
+        k_ns, pol_ = _lf(ff, ast.parse(f'isinstance({tgt_[1]}, PortNamespace)', mode='eval').body)
+        starts_ = [t for t, l in it_[0].succ if l not in ('exc', 'uncaught', 'handler') and it_[0].id in cfg.reachable([t], edge_ok=no_exc)]
+        for is_ns in (True, False):
+            for st_ in starts_:
+                for path in _pu2(ff, {k_ns: is_ns == pol_}, start=st_, frozen=[tgt_[0], tgt_[1], pp.params[1]]):
+                    cut = path[:path.index(it_[0])] if it_[0] in path else path
+                    for i, m in enumerate(cut):
+                        if m.kind == 'stmt' and isinstance(m.ast, ast.Assign) and isinstance(m.ast.targets[0], ast.Subscript) and norm(m.ast.targets[0].value) == pp.params[1]:
+                            v_ = _vop2(cut, i, m.ast.value)
+                            vals_ = [v_.body if is_ns else v_.orelse] if isinstance(v_, ast.IfExp) and 'PortNamespace' in norm(v_.test) else [v_]
+                            for vv in vals_:
+                                n_st += 1
+                                pre = any(isinstance(c, ast.Call) and last_name(c) == 'pre_process' for c in ast.walk(vv))
+                                ok &= (pre == is_ns)
+        ok &= n_st >= 2
     # pre_process FILLS the mapping it is given: the spec's own default object must never be that mapping
     from ..decisions import paths_under as _pu, value_on_path as _vop
     recs = [m for m in cfg.nodes if any(isinstance(c, ast.Call) and last_name(c) == 'pre_process' for c in (walk_shallow(m.expr()) if m.expr() is not None else []))]
